@@ -103,6 +103,12 @@ def g_K(rng, n, kind):
     kind: psd (full rank) | psd-low (rank < n) | indef (one direction negative) | zero"""
     if kind == "zero":
         return {"kind": kind, "A": [], "neg": 0.0}
+    if kind in ("negdef", "negdef-deg"):
+        # ALL eigenvalues negative: negdef = -(A A^dagger + I/4) generic ; negdef-deg = -(I + w w^dagger/|w|^2) (eigenvalue -1 n-1 times, -2 once)
+        w = g_cint(rng, n, 1, 3)
+        if all(x[0][0] == 0 and x[0][1] == 0 for x in w):
+            w[0][0][0] = 1
+        return {"kind": kind, "A": g_cint(rng, n, n, 3), "neg": 1.0, "w": w}
     if kind in ("psd-deg", "psdlow-deg", "indef-deg"):
         # DEGENERATE spectra:  K = I + beta w w^dagger / |w|^2  has the eigenvalue 1 with multiplicity n - 1 and 1 + beta once
         # (psd-deg: 1,..,1,2 ; psdlow-deg: 1,..,1,0 ; indef-deg: 1,..,1,-1), w a generic complex vector -> K is dense and complex
@@ -121,6 +127,14 @@ def g_K(rng, n, kind):
 def K_of(desc, n, den=4.0):
     if desc["kind"] == "zero":
         return np.zeros((n, n), dtype=complex)
+    if desc["kind"] == "negdef":
+        A = m_of(desc["A"], den)
+        K = -(A @ A.conj().T + 0.25 * np.eye(n))
+        return (K + K.conj().T) / 2
+    if desc["kind"] == "negdef-deg":
+        w = m_of(desc["w"]).reshape(-1)
+        K = -(np.eye(n, dtype=complex) + np.outer(w, w.conj()) / float(np.vdot(w, w).real))
+        return (K + K.conj().T) / 2
     if desc["kind"] in ("psd-deg", "psdlow-deg", "indef-deg"):
         w = m_of(desc["w"]).reshape(-1)
         K = np.eye(n, dtype=complex) + desc["beta"] * np.outer(w, w.conj()) / float(np.vdot(w, w).real)
@@ -242,6 +256,15 @@ def jpart_np(J):
 JSITE = ("EffectiveLindbladian.calc_j_mat", "identity-component-dropped")
 
 
+def layouts(a):
+    """the same matrix in other memory representations: Fortran-contiguous copy, transposed VIEW of a C-contiguous buffer (what X.T /
+    X.conj().T of a user's array is), strided view into a larger buffer, read-only copy.  Every API must return the same result on all."""
+    a = np.asarray(a)
+    big = np.zeros((2 * a.shape[0], 3 * a.shape[1]), dtype=a.dtype); big[::2, 1::3] = a
+    ro = a.copy(); ro.flags.writeable = False
+    return [("fortran-order", np.asfortranarray(a.copy())), ("transposed-view", np.ascontiguousarray(a.T).T), ("strided-view", big[::2, 1::3]), ("read-only", ro)]
+
+
 def jsite_for(ctx, S, hs, j_impl):
     """(site, signature) for a wrong calc_j_mat: the recorded pre-fix defect only if the implementation coincides with the pre-fix routine"""
     d = S["d"]
@@ -302,6 +325,21 @@ def chk_gen(ctx, case):
     tol = tolf(mod)
     if md(hs, mod) > tol:
         ctx.violation("gen", site, "model-mismatch", "generated HS differs from the model by %.3g (tol %.3g)" % (md(hs, mod), tol), case)
+    # ---- the result must not depend on the memory representation of the array arguments, nor on WHICH (equal) CompositeSystem object is used
+    variants = [(tag, [dict(layouts(a))[tag] for a in args]) for tag in ("fortran-order", "transposed-view", "strided-view", "read-only")]
+    for tag, vargs in variants:
+        ctx.count("gen", key=(repr(case), "layout", tag), nontrivial=True, label="layout/%s" % tag)
+        try:
+            hv = fn(S["c_sys"], *vargs)
+        except Exception as e:
+            ctx.violation("gen", site, "argument-layout", "raises %s(%s) when the arguments are passed as %s arrays" % (type(e).__name__, str(e)[:60], tag), dict(case, layout=tag)); continue
+        if md(hv, hs) > tol:
+            ctx.violation("gen", site, "argument-layout", "result depends on the memory layout of the arguments: %s arrays give a generator that differs by %.3g" % (tag, md(hv, hs)), dict(case, layout=tag))
+    if case["sys"] in ("1q", "qutrit", "2q"):
+        from quara.objects.composite_system_typical import generate_composite_system
+        c2 = generate_composite_system(*{"1q": ("qubit", 1), "qutrit": ("qutrit", 1), "2q": ("qubit", 2)}[case["sys"]])
+        if md(fn(c2, *[np.array(a) for a in args]), hs) > 0:
+            ctx.violation("gen", site, "composite-system-instance", "an equal but not identical CompositeSystem gives a different generator", case)
     # ---- the property predicate: action on states = GKSL right-hand side, evaluated directly
     for k, rint in enumerate(case["rhos"]):
         rho = state_of(rint)
@@ -437,6 +475,20 @@ def chk_extract(ctx, case):
             f = getattr(L, "calc_%s_part" % nm)
             if md(f(), f(mode_basis="hermitian_basis")) > 0:
                 ctx.violation("extract", "EffectiveLindbladian.calc_%s_part" % nm, "default-mode-basis", "calc_%s_part() differs from calc_%s_part(mode_basis='hermitian_basis')" % (nm, nm), case)
+    # ---- history: arrays RETURNED by the API are overwritten by the caller, then the API is called again: same results as the first time
+    if case.get("layout", True):
+        firsts = {nm: np.array(getattr(L, nm)()) for nm in ("calc_h_mat", "calc_j_mat", "calc_k_mat", "calc_h_part", "calc_j_part", "calc_k_part", "calc_d_part")}
+        for nm in firsts:
+            r = getattr(L, nm)()
+            try:
+                r[...] = 7.0
+            except ValueError:
+                pass                      # read-only result: nothing the caller can spoil
+        for nm, first in firsts.items():
+            if md(getattr(L, nm)(), first) > 0:
+                ctx.violation("extract", "EffectiveLindbladian." + nm, "returned-array-aliases-state", "%s() returns different values after the caller overwrote previously returned arrays" % nm, case)
+        if md(L.hs, hs) > 0:
+            ctx.violation("extract", "EffectiveLindbladian.hs", "returned-array-aliases-state", "the generator changed after the caller overwrote arrays returned by calc_*", case)
     # ---- property: the extracted matrices are the ones the generator was built from
     if H is not None:
         Ht = H - np.trace(H) / d * np.eye(d)           # H is determined up to multiples of the identity
@@ -491,7 +543,7 @@ def chk_extract(ctx, case):
 def sub_extract(ctx):
     rng = ctx.rng
     cases = []
-    plan = [("1q", nn(ctx, 10, 60)), ("1q-rot", nn(ctx, 6, 40)), ("qutrit", nn(ctx, 6, 40)), ("2q", nn(ctx, 2, 25)), ("qutrit-rot", ctx.n(0, 20))]
+    plan = [("1q", nn(ctx, 8, 60)), ("1q-rot", nn(ctx, 4, 40)), ("qutrit", nn(ctx, 4, 40)), ("2q", nn(ctx, 2, 25)), ("qutrit-rot", ctx.n(0, 20))]
     for sysn, cnt in plan:
         S = get_sys(ctx, sysn); d, n = S["d"], S["n"]
         for i in range(cnt):
@@ -520,14 +572,35 @@ def chk_jump(ctx, case):
     cs = [m_of(c, 4.0) * math.sqrt(s) if case["kind"] != "proj" else m_of(c) for c in case["cs"]]
     if case["kind"] == "proj":      # orthogonal projectors |k><k| : the one class for which c = c^dagger c
         cs = [np.diag([1.0 if i == k else 0.0 for i in range(d)]).astype(complex) for k in range(len(case["cs"]))]
+    cs_arg = None
+    if case["kind"] == "mixed-dtype":
+        # a valid jump set given as arrays of DIFFERENT dtypes: integer-valued int64, real float64, then complex128 (smaller dtype first)
+        ci = [np.round(m_of(case["cs"][0]).real).astype(np.int64), (m_of(case["cs"][1]).real / 4.0).astype(np.float64)] + [m_of(c, 4.0) for c in case["cs"][2:]]
+        cs_arg = ci
+        cs = [np.asarray(c, dtype=complex) for c in ci]
     k = len(cs)
     cq = sum((cflat(c) for c in cs), [])
     basis = S["c_sys"].basis()
     ctx.count("jump", key=repr(case), nontrivial=case["kind"] != "proj", label="%s/%s/k=%d" % (case["sys"], case["kind"], k))
-    impl = {"j_cb": el.generate_j_part_cb_from_jump_operators(cs), "k_cb": el.generate_k_part_cb_from_jump_operators(cs),
-            "d_cb": el.generate_d_part_cb_from_jump_operators(cs), "j_gb": el.generate_j_part_gb_from_jump_operators(cs, basis),
-            "k_gb": el.generate_k_part_gb_from_jump_operators(cs, basis), "d_gb": el.generate_d_part_gb_from_jump_operators(cs, basis)}
-    Lobj = el.generate_effective_lindbladian_from_jump_operators(S["c_sys"], cs, is_physicality_required=False)
+    ca = cs if cs_arg is None else cs_arg            # what the implementation is handed
+    try:
+        impl = {"j_cb": el.generate_j_part_cb_from_jump_operators(ca), "k_cb": el.generate_k_part_cb_from_jump_operators(ca),
+                "d_cb": el.generate_d_part_cb_from_jump_operators(ca), "j_gb": el.generate_j_part_gb_from_jump_operators(ca, basis),
+                "k_gb": el.generate_k_part_gb_from_jump_operators(ca, basis), "d_gb": el.generate_d_part_gb_from_jump_operators(ca, basis)}
+        Lobj = el.generate_effective_lindbladian_from_jump_operators(S["c_sys"], ca, is_physicality_required=False)
+    except Exception as e:
+        ctx.violation("jump", "effective_lindbladian.generate_effective_lindbladian_from_jump_operators", "rejects-valid-jump-set",
+                      "a valid set of jump operators (dtypes %s) is rejected: %s(%s)" % ([str(np.asarray(c).dtype) for c in ca], type(e).__name__, str(e)[:80]), case)
+        return
+    # the memory representation of the operators must not matter
+    for tag in ("fortran-order", "transposed-view", "strided-view", "read-only"):
+        cv = [dict(layouts(c))[tag] for c in ca]
+        try:
+            hv = el.generate_effective_lindbladian_from_jump_operators(S["c_sys"], cv, is_physicality_required=False).hs
+        except Exception as e:
+            ctx.violation("jump", "effective_lindbladian.generate_effective_lindbladian_from_jump_operators", "argument-layout", "raises %s(%s) on %s jump operators" % (type(e).__name__, str(e)[:60], tag), dict(case, layout=tag)); continue
+        if md(hv, Lobj.hs) > tolf(Lobj.hs):
+            ctx.violation("jump", "effective_lindbladian.generate_effective_lindbladian_from_jump_operators", "argument-layout", "generator depends on the memory layout of the jump operators (%s): differs by %.3g" % (tag, md(hv, Lobj.hs)), dict(case, layout=tag))
     tol = tolf(*impl.values())
     # the recorded defect (fix c18-jump-operators-cdagger-c) is back iff the j part coincides with the pre-fix routine
     j_mod = cmatv(m.call("c18.jump", [d, k, 2, 0], S["bq"] + cq), n, n)
@@ -628,6 +701,9 @@ def sub_jump(ctx):
                 k = min(k, d)
             cs = [g_herm(rng, d, 4) if kind == "herm" else g_cint(rng, d, d, 4) for _ in range(k)]
             cases.append({"sys": sysn, "kind": kind, "scale": scale_of(rng), "cs": cs, "rhos": [g_state(rng, d), g_state(rng, d)]})
+        # mixed dtypes (int64, float64, complex128 in that order), deterministic part of every tier
+        for k in (2, 3):
+            cases.append({"sys": sysn, "kind": "mixed-dtype", "scale": 1.0, "cs": [g_cint(rng, d, d, 3) for _ in range(k)], "rhos": [g_state(rng, d), g_state(rng, d)]})
     ctx.sample("jump", cases[0])
     ctx.run_cases("jump", chk_jump, cases)
 
@@ -745,7 +821,7 @@ def chk_cp_boundary(ctx, case):
 def sub_verdict(ctx):
     rng = ctx.rng
     cases = []
-    plan = [("1q", ctx.n(16, 90)), ("1q-rot", ctx.n(4, 30)), ("qutrit", ctx.n(8, 50)), ("2q", ctx.n(2, 14))]
+    plan = [("1q", ctx.n(12, 90)), ("1q-rot", ctx.n(4, 30)), ("qutrit", ctx.n(6, 50)), ("2q", ctx.n(2, 14))]
     for sysn, cnt in plan:
         S = get_sys(ctx, sysn); d, n = S["d"], S["n"]
         for i in range(cnt):
@@ -864,7 +940,7 @@ def chk_proj_ineq(ctx, case):
         if md(repaired, expect) <= 100 * tolf(hs):
             ctx.violation("proj_ineq", *jsite_for(ctx, S, hs, j_impl), "%s: hs moves by %.3g (first row becomes %.3g); the projection rebuilds with calc_j_mat, which returns a wrong anti-commutator matrix — with the right J the result is exact" % (what, err, float(np.abs(P.hs[0]).max())), case)
         else:
-            ctx.violation("proj_ineq", site, dsig if degenerate else ("changes-physical" if kind not in ("indef", "indef-deg") else "value"), "%s by %.3g, not explained by calc_j_mat" % (what, err), case)
+            ctx.violation("proj_ineq", site, dsig if degenerate else ("changes-physical" if kind not in ("indef", "indef-deg", "negdef", "negdef-deg") else "value"), "%s by %.3g, not explained by calc_j_mat" % (what, err), case)
     # with physicality required the projection of a physical generator must not raise
     if kind in ("psd", "psd-deg") and case.get("strict"):
         Ls = mk_el(S, hs, is_physicality_required=True)
@@ -886,7 +962,7 @@ def chk_proj_ineq(ctx, case):
 def sub_proj_ineq(ctx):
     rng = ctx.rng
     cases = []
-    for sysn, cnt in [("1q", ctx.n(9, 60)), ("1q-rot", ctx.n(3, 20)), ("qutrit", ctx.n(5, 30)), ("2q", ctx.n(2, 12))]:
+    for sysn, cnt in [("1q", ctx.n(7, 60)), ("1q-rot", ctx.n(3, 20)), ("qutrit", ctx.n(4, 30)), ("2q", ctx.n(2, 12))]:
         S = get_sys(ctx, sysn); d, n = S["d"], S["n"]
         for i in range(cnt):
             kind = ["indef", "psd", "indef", "psd-low"][i % 4]
@@ -898,6 +974,9 @@ def sub_proj_ineq(ctx):
         for i in range(max(3, cnt // 2) if sysn != "2q" else ctx.n(1, 4)):
             kind = ["psd-deg", "indef-deg", "psdlow-deg"][i % 3]
             cases.append({"sys": sysn, "scale": rng.choice([1e-2, 1.0, 1.0, 10.0]), "H": g_herm(rng, d), "K": g_K(rng, n - 1, kind), "strict": True})
+        # spectra with NO non-negative eigenvalue (the projection must return K' = 0), generic and degenerate; deterministic part of every tier
+        for kind in (("negdef", "negdef-deg") if (sysn != "2q" or not ctx.quick) else ("negdef",)):
+            cases.append({"sys": sysn, "scale": rng.choice([1e-2, 1.0, 10.0]), "H": g_herm(rng, d), "K": g_K(rng, n - 1, kind), "strict": False})
     ctx.sample("proj_ineq", cases[0])
     ctx.run_cases("proj_ineq", chk_proj_ineq, cases)
 
@@ -1043,6 +1122,13 @@ def chk_tables(ctx, case):
             ctx.violation("tables", "effective_lindbladian._calc_j_mat_from_k_mat" + ("" if sp else "_slowly"), "model-mismatch", "j_mat from k_mat differs from the model by %.3g" % md(ji, mjm), case)
         if md(ki, mkp) > tol:
             ctx.violation("tables", "effective_lindbladian._calc_k_part_from_k_mat" + ("" if sp else "_slowly (_calc_k_part_from_slowly)"), "model-mismatch", "k_part from k_mat differs from the model by %.3g" % md(ki, mkp), case)
+        for tag, Kv in layouts(K):
+            jv = [el._calc_j_mat_from_k_mat_slowly, el._calc_j_mat_from_k_mat][sp](Kv, c_sys)
+            kv = [el._calc_k_part_from_slowly, el._calc_k_part_from_k_mat][sp](Kv, c_sys)
+            ctx.count("tables", key=(repr(case), "routines", sp, tag), nontrivial=True, label="%s/layout/%s" % (case["sys"], tag))
+            if md(jv, ji) > tol or md(kv, ki) > tol:
+                ctx.violation("tables", "effective_lindbladian._calc_%s_from_k_mat%s" % ("j_mat" if md(jv, ji) > tol else "k_part", "" if sp else "_slowly"), "argument-layout",
+                              "result depends on the memory layout of k_mat: a %s array gives a result that differs by %.3g (a generic, non-symmetric K)" % (tag, max(md(jv, ji), md(kv, ki))), dict(case, layout=tag))
 
 
 def sub_tables(ctx):
